@@ -107,3 +107,39 @@ def handler : Handler := handlerBy variant
 def handlerPinned : Handler := handlerBy variantPinned
 
 end PrologVerif.Driver.C11
+
+namespace PrologVerif.Driver.C11
+open PrologVerif PrologVerif.Collect PrologVerif.Driver
+
+/-- stream c11.variant: `variant` and `renamedCopy` called directly -/
+def variantHandlerBy (test : Term → Term → Bool) : Handler := fun payload impl =>
+  match fields payload with
+  | ["v", a, b] =>
+    match Term.ofWire a, Term.ofWire b with
+    | some t1, some t2 =>
+      let m := if test t1 t2 then "true" else "false"
+      -- specification: variants iff the canonical forms (variables numbered by first occurrence) coincide
+      let want := if t1.canon == t2.canon then "true" else "false"
+      (m, if impl == want then "ok" else s!"FAIL variant: want {want} (canonical forms {if want == "true" then "coincide" else "differ"})")
+    | _, _ => ("BAD-CASE", "-")
+  | ["c", a] =>
+    match Term.ofWire a with
+    | some t =>
+      let next := varBound t
+      let c := (renamedCopy t [] next).1
+      let m := (Term.a2 "c" t c).canon.wire
+      -- specification: the copy is a variant of the term and shares no variable with it
+      let v := match Term.ofWire impl with
+        | some (.app "c" (.cons o (.cons c' .nil))) =>
+          if o.canon != t.canon then "FAIL copy: the original changed"
+          else if c'.canon != t.canon then "FAIL copy: not a variant of the original"
+          else if (vars c').any (fun x => (vars o).contains x) then "FAIL copy: shares a variable with the original"
+          else "ok"
+        | _ => "FAIL copy: unreadable output"
+      (m, v)
+    | none => ("BAD-CASE", "-")
+  | _ => ("BAD-CASE", "-")
+
+def variantHandler : Handler := variantHandlerBy variant
+
+end PrologVerif.Driver.C11
